@@ -301,6 +301,11 @@ def run_unit(u, keep=False):
             r["reason"] = "quantifier ignored by back end: " + m
             return r
     fails = [x for x in res if x["status"] == "FAILURE" and not x["desc"].startswith("REACH:")]
+    # a failed unwinding assertion means "the authored unwind bound no longer covers this loop": the proof does not
+    # apply any more (undecided), it is not evidence of a violated property - a correct refactoring that adds
+    # iterations would otherwise raise a false alarm.  Other failed obligations found within the bound are real.
+    unwind_fails = [x for x in fails if ".unwind." in (x["id"] or "") or x["desc"].startswith("unwinding assertion")]
+    fails = [x for x in fails if x not in unwind_fails]
     reach = [x for x in res if x["desc"].startswith("REACH:")]
     vac = [x for x in reach if x["status"] != "FAILURE"]
     other = [x for x in res if x["status"] not in ("SUCCESS", "FAILURE")]
@@ -311,6 +316,9 @@ def run_unit(u, keep=False):
     if fails:
         r["state"] = "fail"
         r["fails"] = fails
+        return r
+    if unwind_fails:
+        r["reason"] = "unwind bound exceeded (%s at %s:%s): the unit's loop closure no longer covers the code" % (unwind_fails[0]["desc"], unwind_fails[0]["function"], unwind_fails[0]["line"])
         return r
     if other:
         r["reason"] = "obligations with status %s: %s" % (other[0]["status"], other[0]["desc"])
